@@ -105,7 +105,7 @@ Fixpoint pk_cost (c : ctx) (ke : keyenv) (m : ms) : N :=
   | MMulti k ks | MSortedMulti k ks =>
     num_cost k (nlen ks) + sumN (map (fun key => if is_uncompressed ke key then 66 else 34) ks) + 1
   | MMultiA k ks | MSortedMultiA k ks =>
-    num_cost k (nlen ks) + 33 * nlen ks + (nlen ks - 1) + 1
+    script_num_size k + 33 * nlen ks + nlen ks + 1      (* n is not pushed (since /repo c854851b) *)
   end.
 
 Fixpoint tree_height (m : ms) : N :=
